@@ -502,9 +502,10 @@ public:
 
       spx_alloc(newMem, newmax);
 
-      /* call copy constructor for first elements */
-      for(i = 0; i < max(); i++)
+      /* construct the first elements and move the old ones into them; when shrinking only newmax (>= size()) fit */
+      for(i = 0; i < max() && i < newmax; i++)
       {
+         new(&(newMem[i])) Item();
          newMem[i].data = std::move(theitem[i].data);
          newMem[i].info = theitem[i].info;
       }
